@@ -1,6 +1,24 @@
 """Hypothesis driver: every run is a pure function of (sources, VERIF_SEED, tier)."""
 from hypothesis import given, settings, seed, HealthCheck, Phase, Verbosity
 
+from .core import Violation
+
+
+def _find_violation(e, depth=0):
+  if isinstance(e, Violation):
+    return e
+  if depth > 6 or e is None:
+    return None
+  for sub in getattr(e, 'exceptions', ()) or ():
+    v = _find_violation(sub, depth + 1)
+    if v is not None:
+      return v
+  for attr in ('__cause__', '__context__'):
+    v = _find_violation(getattr(e, attr, None), depth + 1)
+    if v is not None:
+      return v
+  return None
+
 
 def run_given(ctx, strategy, fn, max_examples, salt=0):
   @seed(ctx.shard_seed() * 7919 + salt)
@@ -12,4 +30,15 @@ def run_given(ctx, strategy, fn, max_examples, salt=0):
   @given(strategy)
   def t(case):
     fn(ctx, case)
-  t()
+  try:
+    t()
+  except Violation:
+    raise
+  except BaseException as e:  # noqa
+    # When the shrink budget runs out the driver lets further shrink candidates pass, which
+    # Hypothesis may report as a flaky failure (an exception group wrapping the Violation):
+    # the violation itself is what counts.
+    v = _find_violation(e)
+    if v is not None:
+      raise v
+    raise
